@@ -81,8 +81,6 @@ package traversal
 //@   assigns[C20] foreign, prog.Budget.NodeBudget, prog.Budget.LinkBudget, map(prog.SeenLinks), ghostall("io.Reader.pos"), ghostall("io.Writer.fed"), ghostall("io.Writer.fedof"), ghostall("linking.BlockWriteCommitter.calls")
 //@   requires ph == phasePreload ==> prog.Cfg.Preloader != nil
 //@   before visit assert[C15] prog.Budget != nil ==> old(prog.Budget.NodeBudget) > 0 && prog.Budget.NodeBudget == old(prog.Budget.NodeBudget) - 1
-//@   before explore assert[C15] !haveStartAtPath || reachedStartAtPath || prog.PastStartAtPath || len(prog.Path.segments) >= len(prog.Cfg.StartAtPath.segments)
-//@   before explore assert[C07] carg2 == s && carg3 == n && carg5 == v && carg6 == ps
 //@   ensures[C15] prog.Budget != nil && old(prog.Budget.NodeBudget) <= 0 ==> iserr(err, "*ErrBudgetExceeded")
 //   a successful walk of a map or list has gone through every child (no stated interests) or through
 //   every stated interest, in order: neither loop is left early
@@ -92,6 +90,18 @@ package traversal
 //@   loop 0 invariant prog.Cfg == old(prog.Cfg) && prog.Path == old(prog.Path) && prog.Budget == old(prog.Budget) && prog.SeenLinks == old(prog.SeenLinks) && itr != nil
 //@   loop 1 assigns foreign, prog.PastStartAtPath, reachedStartAtPath
 //@   loop 1 invariant prog.Cfg == old(prog.Cfg) && prog.Path == old(prog.Path) && prog.Budget == old(prog.Budget) && prog.SeenLinks == old(prog.SeenLinks) && 0 - 1 <= rangeindex && rangeindex < len(attn)
+
+// The per-child step of walkAdv (inlined): a child is handed to explore unless a start path is set,
+// has not been reached by this or an earlier sibling, the walk is not past it, the depth is still
+// inside it and the child's segment differs from the start path's segment at this depth — and only then
+// is it skipped.
+//@ func (Progress).walkAdv$1(v, ps) (err)
+//@   inline
+//@   after explore let explored = true
+//@   before explore assert[C15] !haveStartAtPath || reachedStartAtPath || prog.PastStartAtPath || len(prog.Path.segments) >= len(prog.Cfg.StartAtPath.segments)
+//@   before explore assert[C07] carg2 == s && carg3 == n && carg5 == v && carg6 == ps
+//@   ensures[C15] err == nil && !defined(explored) ==> haveStartAtPath && !reachedStartAtPath && !prog.PastStartAtPath && len(prog.Path.segments) < len(prog.Cfg.StartAtPath.segments)
+//@   ensures[C15] err == nil && !defined(explored) ==> !datamodel.segeq(ps, prog.Cfg.StartAtPath.segments[len(prog.Path.segments)])
 
 //@ func (Progress).explore(ph, s, n, visitFn, v, ps) (err)
 //@   requires wfprog(prog) && s != nil && n != nil && v != nil && visitFn != nil
